@@ -177,6 +177,11 @@ fn amount_pairs(t: &dyn QtyOps, ua: usize, ub: usize, cfg: &Cfg, rng: &mut Rng, 
                     v.push((a, b3));
                 }
                 v.push((a, -b));
+                // separated by 1e-10 relative: far beyond rounding, far below anything "visibly" different
+                if let Some(b4) = safe(|| b + b / from_parts_dec(false, 1, 10)) {
+                    v.push((a, b4));
+                    v.push((b4, a));
+                }
             }
         }
     } else {
@@ -194,6 +199,9 @@ fn amount_pairs(t: &dyn QtyOps, ua: usize, ub: usize, cfg: &Cfg, rng: &mut Rng, 
         v.push((tiny, from_parts_dec(false, 3, -17)));
         v.push((tiny, zero()));
     }
+    // numerically equal raw amounts in (possibly) different units
+    let same = base[1 + (salt * 5) % (base.len() - 1)];
+    v.push((same, same));
     v.push((zero(), zero()));
     // a zero on one side only (the sum must still carry the left operand's unit, comparisons the right sign)
     let nz = base[1 + salt % (base.len() - 1)];
